@@ -130,7 +130,9 @@ def gen_plan(seed, tier="quick"):
         "spike_dtype": r.choice(["int64", "int64", "uint64", "int32", "uint32"]),     # spike sorters save unsigned times
         "prelude_same_outdir": r.random() < 0.4,
         "explicit_h": r.random() < 0.3,
-        "reader_sort_false": r.random() < 0.2,     # reader_kwargs={"sort": False}: traces and geometry in the file's own channel order
+        "reader_sort_false": r.random() < 0.2,
+        # joblib's thread backend (with joblib.parallel_backend("threading")): the chunk workers share one process
+        "backend": "threading" if r.random() < 0.12 else "loky",     # reader_kwargs={"sort": False}: traces and geometry in the file's own channel order
         "interrupted_first": r.choice([None, None, None, {"kind": r.choice(["kill", "torn", "io_error"]), "rseed": r.randrange(1 << 30)}]),
     }
 
@@ -190,7 +192,7 @@ def _extract(plan, src, outdir, chunk, n_jobs, schedule, scratch):
             rr.shuffle(order)
         SCHED.reset(rng=rr, p_switch=(max(schedule["p_switch"], 0.3) if schedule.get("io_mode") else schedule["p_switch"]),
                     victim=schedule.get("victim"), order=order, record_memmap=True, io_mode=bool(schedule.get("io_mode")),
-                    delay=schedule.get("delay"))
+                    delay=schedule.get("delay"), backend=plan.get("backend", "loky"))
     sp = np.array(plan["spikes"], dtype=np.int64).reshape(-1, 3)
     err = None
     kw = {}
@@ -322,6 +324,8 @@ def _run(plan, base):
     stats["config"]["preprocess_" + plan.get("preprocess", "none")] = 1
     if plan.get("reader_sort_false"):
         stats["config"]["reader_sort_false"] = 1
+    if plan.get("backend") == "threading":
+        stats["config"]["thread_backend"] = 1
     sigbase = f"n{plan['n_jobs']}"
     try:
         if not valid.any():
@@ -606,7 +610,7 @@ def _check_files(plan, tag, out, V, neigh, sp, valid, ns, nap, od, res, chunk, n
 
 
 def shrink_candidates(plan):
-    for key, val in (("reader_sort_false", False), ("form", "bin"), ("delay", None), ("io_mode", False), ("preprocess", "none"), ("order", None), ("victim", None), ("p_switch", 0.0), ("prelude", None), ("interrupted_first", None)):
+    for key, val in (("backend", "loky"), ("reader_sort_false", False), ("form", "bin"), ("delay", None), ("io_mode", False), ("preprocess", "none"), ("order", None), ("victim", None), ("p_switch", 0.0), ("prelude", None), ("interrupted_first", None)):
         if plan.get(key) != val:
             c = dict(plan)
             c[key] = val
